@@ -96,25 +96,28 @@ Proof. unfold wlen. rewrite app_length. cbn. lia. Qed.
 
 (* ---------- the potential ---------- *)
 
-(* one-way category changes made by the folder carry a rank that decreases *)
+(* one-way category changes made by the folder carry a rank that decreases.  The
+   weights are chosen so that: a rule that shortens the window pays for resetting
+   `left` and for any new class (100 > 2*6 + 14*6); the USER rule (function ->
+   bareword, left+1) pays its rank increase of 1 with the weight 2 of `left`;
+   the collate and backslash rules (left := 0 without shortening) pay for the
+   reset with a rank drop of 13 > 2*6. *)
 Definition rank (c : byte) : Z :=
-  if beq c b_sqli_token_type_keyword then 6
-  else if beq c b_sqli_token_type_operator then 5
-  else if beq c b_sqli_token_type_bare_word then 5
-  else if beq c b_sqli_token_type_variable then 5
-  else if beq c b_sqli_token_type_function then 3
-  else if beq c b_sqli_token_type_backslash then 2
-  else if beq c b_sqli_token_type_tsql then 1
-  else if beq c b_sqli_token_type_sqltype then 1
+  if beq c b_sqli_token_type_keyword then 14
+  else if beq c b_sqli_token_type_operator then 13
+  else if beq c b_sqli_token_type_bare_word then 13
+  else if beq c b_sqli_token_type_variable then 13
+  else if beq c b_sqli_token_type_backslash then 13
+  else if beq c b_sqli_token_type_function then 12
   else 0.
 
-Lemma rank_range c : 0 <= rank c <= 6.
+Lemma rank_range c : 0 <= rank c <= 14.
 Proof. unfold rank. repeat match goal with |- context [if ?b then _ else _] => destruct b end; lia. Qed.
 
 Fixpoint rank_sum (w : list token) : Z :=
   match w with [] => 0 | t :: w' => rank (t_cat t) + rank_sum w' end.
 
-Lemma rank_sum_range w : 0 <= rank_sum w <= 6 * wlen w.
+Lemma rank_sum_range w : 0 <= rank_sum w <= 14 * wlen w.
 Proof.
   unfold wlen. induction w as [|t w IH]; cbn [rank_sum List.length]; [lia|].
   pose proof (rank_range (t_cat t)). lia.
@@ -134,8 +137,8 @@ Qed.
 Definition b2z (b : bool) : Z := if b then 1 else 0.
 
 Definition phi (f : fstate) : Z :=
-  110 * (slen (f_s f) - pos (f_s f)) + b2z (f_more f) + 100 * wlen (f_win f)
-  + 8 * (6 - f_left f) + rank_sum (f_win f).
+  120 * (slen (f_s f) - pos (f_s f)) + b2z (f_more f) + 100 * wlen (f_win f)
+  + 2 * (6 - f_left f) + rank_sum (f_win f).
 
 (* the mark below which every number / backslash token of the window ends *)
 Definition mark (f : fstate) : Z :=
